@@ -284,8 +284,9 @@ func (vc *VC) QuerySliced(o *Obligation, prelude string, splitAsserts []T, wantM
 	return dropUnusedSortedGhosts(sb.String())
 }
 
-// dropUnusedSortedGhosts removes declarations of ghost constants of a specification sort (e.g. BS)
-// that the query does not mention: the sort may not even be declared in this package's prelude.
+// dropUnusedSortedGhosts removes declarations of ghost constants that the query does not mention: a
+// specification sort (e.g. BS) may not even be declared in this package's prelude, and a ghost added for
+// one function must not change the text of every other query (solver run times are sensitive to that).
 func dropUnusedSortedGhosts(q string) string {
 	if !strings.Contains(q, "(declare-const ghost.") {
 		return q
@@ -293,7 +294,7 @@ func dropUnusedSortedGhosts(q string) string {
 	lines := strings.Split(q, "\n")
 	out := lines[:0]
 	for _, ln := range lines {
-		if strings.HasPrefix(ln, "(declare-const ghost.") && !strings.Contains(ln, "(_ BitVec") && !strings.HasSuffix(ln, " Bool)") {
+		if strings.HasPrefix(ln, "(declare-const ghost.") {
 			name := strings.Fields(ln)[1]
 			if strings.Count(q, name) == 1 {
 				continue
